@@ -832,7 +832,13 @@ def r17_byte_conv(text, notes):
     new = re.sub(r'\.\s*to_(be|le)_bytes\s*\(\s*\)', lambda m: '.vf_to_%s_bytes()' % m.group(1), text)
     if new != text:
         notes.add('R17', 'to_be_bytes/to_le_bytes renamed to the spec-carrying extension methods')
-    return new
+    # R17b: `V.extend(E.vf_to_xx_bytes())` (Vec::extend over a byte array) = `V.extend_from_slice(E.vf_to_xx_bytes().as_slice())`,
+    # whichever byte order the code uses (a subst quoting the byte order would hide a changed byte order from the contract)
+    new2 = re.sub(r'\.extend\(\s*([A-Za-z_][A-Za-z0-9_.]*)\.vf_to_(be|le)_bytes\(\)\s*\)',
+                  lambda m: '.extend_from_slice(%s.vf_to_%s_bytes().as_slice())' % (m.group(1), m.group(2)), new)
+    if new2 != new:
+        notes.add('R17', '`.extend(E.to_xx_bytes())` written as extend_from_slice')
+    return new2
 
 
 def r18_from_bytes(text, notes):
@@ -862,6 +868,12 @@ def r18_from_bytes(text, notes):
             return text
         st, par, tail_start, close, endian = hit
         expr = text[par + 1:tail_start].strip()
+        # `&E.as_ref()` of a pinned / owned byte value is its slice
+        ma = re.match(r'^([A-Za-z_][A-Za-z0-9_]*)\s*\.\s*as_ref\s*\(\s*\)$', expr)
+        if ma:
+            text = text[:st] + '::vf_from_%s_slice(%s.as_slice())' % (endian, ma.group(1)) + text[close + 1:]
+            notes.add('R18', '`from_xx_bytes(%s.try_into()..)` lowered to vf_from_xx_slice(%s.as_slice())' % (expr, ma.group(1)))
+            continue
         text = text[:st] + '::vf_from_%s_slice(&%s)' % (endian, expr) + text[close + 1:]
         notes.add('R18', '`from_be_bytes(%s.try_into().expect(..))` lowered to vf_from_be_slice' % ' '.join(expr.split()))
 
